@@ -19,6 +19,7 @@ limitations under the License.
 #include <photon/thread/thread.h>
 #include <photon/common/utility.h>
 #include <photon/common/alog.h>
+#include <photon/common/verif-hooks.h>
 using namespace std;
 
 namespace photon {
@@ -151,6 +152,7 @@ namespace rpc {
                                 }
                                 if (ret == -1) {
                                     // or just timed out
+                                    VERIF_COV(C_OOO_FOLLOWER_TIMEOUT);
                                     {
                                         SCOPED_LOCK(m_mutex_map);
                                         m_map.erase(args.tag);
@@ -193,6 +195,7 @@ namespace rpc {
 
                     if (it == m_map.end()) {
                         // response tag never issued
+                        VERIF_COV(C_OOO_UNKNOWN_TAG);
                         m_map.erase(o_tag);
                         LOG_ERROR_RETURN(ENOENT, -2, "response's tag ` not found, response should be dropped", args.tag);
                     }
@@ -201,6 +204,12 @@ namespace rpc {
                 }
 
                 // collect with mutex_r
+#ifdef PHOTON_VERIF
+                auto verif_tag = args.tag;
+                if (targ != &args) VERIF_COV(C_OOO_LEADER_COLLECT_OTHER);
+                VERIF_EVENT(E_OOO_COLLECT_BEGIN, verif_tag, targ);
+                VERIF_POINT(P_OOO_COLLECT);
+#endif
                 targ->ret = targ->do_collect(targ);
 
                 {
@@ -210,6 +219,9 @@ namespace rpc {
                         th = targ->th;
                         targ->phase = OooPhase::COLLECTED;
                     }
+#ifdef PHOTON_VERIF
+                    VERIF_EVENT(E_OOO_COLLECT_END, verif_tag, targ);
+#endif
                     if (o_tag == args.tag) {
                         if (th != CURRENT) {
                             LOG_ERROR_RETURN(EINVAL, -1, "args tag ` not belong to current thread `", VALUE(args.tag), VALUE(CURRENT));
